@@ -14,6 +14,11 @@ type C struct {
 	Echo func(ctx context.Context, tok int64) (int64, error)
 }
 
+// C2 is a second proxy struct filled by the same NewMergeClient call (same connection).
+type C2 struct {
+	Echo2 func(ctx context.Context, tok int64) (int64, error) `rpc_method:"NS.Echo"`
+}
+
 type wireReq struct {
 	ID     json.RawMessage   `json:"id"`
 	Method string            `json:"method"`
@@ -89,7 +94,8 @@ func HarnessWSCorrelation() {
 	l := verif.ListenWS()
 	go echoPeer(l, n, perm, extra)
 	var c C
-	closer, err := jsonrpc.NewMergeClient(context.Background(), l.URL(), "NS", []interface{}{&c}, nil)
+	var c2 C2
+	closer, err := jsonrpc.NewMergeClient(context.Background(), l.URL(), "NS", []interface{}{&c, &c2}, nil)
 	verif.Assert(err == nil, "client-created")
 	res := make([]result, n)
 	toks := make([]int64, n)
@@ -102,7 +108,11 @@ func HarnessWSCorrelation() {
 	for i := 0; i < n; i++ {
 		i := i
 		go func() {
-			v, err := c.Echo(context.Background(), toks[i])
+			call := c.Echo
+			if i%2 == 1 {
+				call = c2.Echo2 // odd callers go through the second proxy struct
+			}
+			v, err := call(context.Background(), toks[i])
 			res[i].returns++
 			res[i].val, res[i].err = v, err
 		}()
